@@ -142,6 +142,86 @@ func (a *allocAnchors) methods(p *core.Prog) []*ssa.Function {
 	return out
 }
 
+// admitHelper: a method of the allocator, called on every path before the underlying call, that panics with the limit error.
+func (a *allocAnchors) admitHelper(fn *ssa.Function, under *ssa.Call) (*ssa.Function, *ssa.Call) {
+	var helper *ssa.Function
+	var hcall *ssa.Call
+	core.EachInstr(fn, func(i ssa.Instruction) {
+		cl, ok := i.(*ssa.Call)
+		if !ok {
+			return
+		}
+		callee := cl.Call.StaticCallee()
+		if callee == nil || callee == fn || callee.Signature.Recv() == nil || core.NamedOf(callee.Signature.Recv().Type()) != a.typ {
+			return
+		}
+		pan := false
+		core.EachInstr(callee, func(j ssa.Instruction) {
+			if pn, ok := j.(*ssa.Panic); ok {
+				if mi, ok := pn.X.(*ssa.MakeInterface); ok && core.NamedOf(mi.X.Type()) == a.errTyp {
+					pan = true
+				}
+			}
+		})
+		if pan && core.MustPassBetween(fn, nil, under, func(j ssa.Instruction) bool { return j == ssa.Instruction(cl) }) {
+			helper, hcall = callee, cl
+		}
+	})
+	return helper, hcall
+}
+
+// judgeAdmitHelper: inside the helper, normal completion implies inuse+param <= limit (one-sided), the only
+// other exit is the LimitError panic, and the helper does not write the counter.
+func (a *allocAnchors) judgeAdmitHelper(c *core.Ctx, p *core.Prog, h *ssa.Function) []string {
+	var msgs []string
+	var pn *ssa.Panic
+	nExit := 0
+	core.EachInstr(h, func(i ssa.Instruction) {
+		switch x := i.(type) {
+		case *ssa.Panic:
+			pn = x
+			nExit++
+		case *ssa.Return:
+			nExit++
+		}
+		if _, ok := storesTo(i, a.inuse); ok {
+			msgs = append(msgs, "the limit-test helper writes the in-use counter")
+		}
+	})
+	if pn == nil || nExit != 2 {
+		return append(msgs, "the limit-test helper is not of the form `if <over the limit> { panic(LimitError) }`")
+	}
+	conds, g, cx, err := guardAtPos(p, pn.Pos())
+	if err != nil || cx {
+		return append(msgs, "path condition of the helper's panic not recognised")
+	}
+	var param types.Object
+	if len(h.Params) == 2 {
+		param = h.Params[1].Object()
+	}
+	g.Roles = func(obj types.Object, e ast.Expr) (string, bool) {
+		switch {
+		case obj == types.Object(a.inuse):
+			return "inuse", true
+		case obj == types.Object(a.limit):
+			return "limit", true
+		case param != nil && obj == param:
+			return "change", true
+		}
+		return "", false
+	}
+	ok, w, n, e2 := compareGuard(g, conds, []string{"inuse", "limit", "change"}, []int64{0, 1, 2, 3}, func(env map[string]int64) bool {
+		return env["inuse"]+env["change"] > env["limit"]
+	}, "implied-by")
+	c.Stats["guard_valuations"] += n
+	if e2 != nil {
+		msgs = append(msgs, "guard not recognised: "+e2.Error())
+	} else if !ok {
+		msgs = append(msgs, "the helper returns normally although inuse+change > limit ("+w+"; panic guard "+condString(conds)+")")
+	}
+	return msgs
+}
+
 func c14_1(c *core.Ctx, p *core.Prog) {
 	a := newAllocAnchors(p)
 	if !a.ok(c) {
@@ -188,6 +268,21 @@ func c14_1(c *core.Ctx, p *core.Prog) {
 		}
 		nAlloc++
 		var msgs []string
+		// the limit test may live in a helper of the allocator that is called with the change before the
+		// underlying call: `l.admit(change)`; it is then judged inside the helper
+		if helper, hcall := a.admitHelper(fn, under); helper != nil {
+			hm := a.judgeAdmitHelper(c, p, helper)
+			msgs = append(msgs, hm...)
+			if st == nil || !core.Reachable(fn, under, st) {
+				msgs = append(msgs, "the in-use counter is not updated after the underlying allocation")
+			} else if b, ok := st.Val.(*ssa.BinOp); !ok || b.Op != token.ADD || !isFieldLoad(b.X, a.inuse) {
+				msgs = append(msgs, "the in-use counter is not advanced by addition of the requested change")
+			} else if len(hcall.Call.Args) < 2 || core.StripConv(hcall.Call.Args[1]) != core.StripConv(b.Y) {
+				msgs = append(msgs, "the amount added to the in-use counter is not the amount that was tested against the limit")
+			}
+			c.Check(len(msgs) == 0, key, pos, core.FuncName(fn), "limit tested (in "+helper.Name()+") before the underlying call; in-use advanced by the tested change afterwards", strings.Join(msgs, "; "))
+			continue
+		}
 		// guard truth table on the underlying call
 		conds, g, cx, err := guardAtPos(p, under.Pos())
 		var changeObj types.Object
